@@ -181,6 +181,12 @@ func c07ShareOracle(c c07Case, exp c07Expect, o c07Obs) *c07Viol {
 		return nil
 	}
 	if n > 1 {
+		if exp.Fam[1].PhantomV4 {
+			// quirk domain: the registrar response carries an IPv4 address in its IPv6 field, so the
+			// "IPv6" registration is a second IPv4 one; registrations from the detector (the only
+			// ones passed on) never carry a registrar response. Not defined by the statement.
+			return nil
+		}
 		return c07V("share:double", "%d requests to the peer API for one client registration", n)
 	}
 	if !c.Conf.Share {
@@ -314,7 +320,9 @@ func c07Twins(c c07Case, exp c07Expect) []c07Twin {
 		if c.Msg.Source == int(pb.RegistrationSource_Detector) {
 			blk = "phantom-blocklisted-detector-source"
 		}
-		add(blk, i, func(d *c07Case) { d.Conf.PhantomBlocklist = append(d.Conf.PhantomBlocklist, c07HostCIDR(f.Phantom)) })
+		if f.Phantom.To16() != nil { // (a registrar-assigned "address" of the wrong length cannot be put on a blocklist)
+			add(blk, i, func(d *c07Case) { d.Conf.PhantomBlocklist = append(d.Conf.PhantomBlocklist, c07HostCIDR(f.Phantom)) })
+		}
 		if len(c.Conf.CovertAllowlist) == 0 {
 			add("covert-blocklisted", i, func(d *c07Case) { d.Conf.CovertBlocklist = append(d.Conf.CovertBlocklist, c07HostCIDR(covertIP())) })
 		}
@@ -379,7 +387,7 @@ func c07Eval(e *c07Env, c c07Case) (c07Expect, c07Obs, *c07Viol, error) {
 			return exp, o, c07V("probe:unneeded:already-usable", "%s slot: probed again (%d -> %d) for a registration that is already usable", f.Slot, o.Probes[i], o2.Probes[i]), nil
 		}
 	}
-	if len(o2.Shares) > 1 {
+	if len(o2.Shares) > 1 && !exp.Fam[1].PhantomV4 {
 		return exp, o, c07V("share:double", "%d requests to the peer API after the same message was delivered twice", len(o2.Shares)), nil
 	}
 	if len(o2.Shares) > len(o.Shares) {
